@@ -73,7 +73,7 @@ def main():
 
     # 1. generated tables
     gen_info = None
-    if getattr(mod, "USES_GEN", False):
+    if True:      # the generated tables are re-read from /repo's source on EVERY run of every check
         import xlate_run
         ok, info = xlate_run.regenerate()
         gen_info = info
